@@ -30,6 +30,8 @@ pub struct Out
     pub nontrivial : usize,
     pub samples : Vec<Json>,
     pub extra : Json,
+    /// evaluations that are not model cases (self-tests)
+    pub extra_evaluations : usize,
 }
 
 fn fnv(s : &str) -> u64
@@ -46,7 +48,7 @@ impl Out
         Out
         {
             cases : vec![], impls : vec![], violations : vec![], counts : BTreeMap::new(),
-            distinct : BTreeSet::new(), nontrivial : 0, samples : vec![], extra : Json::obj(),
+            distinct : BTreeSet::new(), nontrivial : 0, samples : vec![], extra : Json::obj(), extra_evaluations : 0,
         }
     }
 
@@ -88,7 +90,7 @@ impl Out
         f.flush()?;
         let mut j = Json::obj();
         j.set("suite", Json::s(name));
-        j.set("evaluations", Json::i(self.cases.len()));
+        j.set("evaluations", Json::i(self.cases.len() + self.extra_evaluations));
         j.set("distinct", Json::i(self.distinct.len()));
         j.set("distinct_nontrivial", Json::i(self.nontrivial));
         j.set("counts", Json::counts(&self.counts));
